@@ -5,6 +5,7 @@ import (
 	"strings"
 	"time"
 
+	"github.com/runreveal/pql/parser"
 	"github.com/runreveal/pql/zzverif/c16model"
 )
 
@@ -100,7 +101,22 @@ func strict(m *c16model.Result, o Outcome, procLevel bool) (class, detail string
 	return "", ""
 }
 
-func relaxed(m *c16model.Result, o Outcome) (class, detail string) {
+// sameTokens reports whether two pieces have the same token sequence (kinds and values): the
+// fragment a read error left behind IS the script's last statement, cut only inside trailing blanks or comments.
+func sameTokens(a, b string) bool {
+	ta, tb := parser.Scan(a), parser.Scan(b)
+	if len(ta) != len(tb) {
+		return false
+	}
+	for i := range ta {
+		if ta[i].Kind != tb[i].Kind || ta[i].Value != tb[i].Value {
+			return false
+		}
+	}
+	return true
+}
+
+func relaxed(m *c16model.Result, full *c16model.Result, o Outcome) (class, detail string) {
 	if o.RetErr == "" {
 		return "read-failure-exit-zero", "input could not be read completely but run returned nil"
 	}
@@ -132,7 +148,15 @@ func relaxed(m *c16model.Result, o Outcome) (class, detail string) {
 		}
 	}
 	if term == len(m.Pieces)-1 && m.Stdout == o.Stdout {
-		// all terminated statements plus the remainder
+		// All terminated statements plus the unterminated remainder. Its SQL belongs on stdout only if the
+		// remainder IS the script's final statement (everything of it was delivered before the failure);
+		// SQL for a fragment that the read failure cut out of a longer statement is SQL for a statement
+		// the script does not contain.
+		last := m.Pieces[len(m.Pieces)-1]
+		whole := full != nil && len(full.Pieces) == len(m.Pieces) && sameTokens(last.Text, full.Pieces[len(full.Pieces)-1].Text)
+		if last.Out != "" && !whole {
+			return "sql-for-truncated-statement-after-read-failure", fmt.Sprintf("input could not be read beyond %q, yet stdout ends with SQL compiled from that fragment: %q", clip(last.Text), clip(last.Out))
+		}
 		if o.Sink < m.Failures-boolInt(!m.Pieces[len(m.Pieces)-1].OK) {
 			return "failure-not-reported", fmt.Sprintf("%d statements failed, %d reported", m.Failures, o.Sink)
 		}
@@ -205,7 +229,7 @@ func Judge(c Case, mc *ModelCache, o Outcome) Verdict {
 		}
 		var class, detail string
 		if r.relaxed {
-			class, detail = relaxed(m, o)
+			class, detail = relaxed(m, mc.At(len(c.Input)), o)
 		} else {
 			class, detail = strict(m, o, c.ProcLevel)
 		}
